@@ -1,4 +1,5 @@
 import GwbVerif.Properties.C10
+import GwbVerif.Properties.C10Quaternion
 open Gwb
 #print axioms C10_resolve_own
 #print axioms C10_resolve_inherit_nearest
@@ -43,6 +44,23 @@ open Gwb
 #print axioms C10_locality_covers_culled
 #print axioms C10_fraction_in_unit_interval_false
 #print axioms C10_temperature_convex_basic
+#print axioms C10_quat_branch_cases
+#print axioms C10_quat_roundtrip_w
+#print axioms C10_quat_roundtrip_x
+#print axioms C10_quat_roundtrip_y
+#print axioms C10_quat_roundtrip_z
+#print axioms C10_quat_roundtrip
+#print axioms C10_quat_unit
+#print axioms C10_slerp_endpoints
+#print axioms C10_slerp_neg_same_rotation
+#print axioms C10_slerp_blend_endpoints
+#print axioms C15_blend_is_rotation
+#print axioms C15_blend_is_rotation_quat
+#print axioms C15_blend_linear_norm
+#print axioms C15_blend_defect_exact
+#print axioms C15_blend_orthonormal_iff
+#print axioms C15_blend_linear_defect
+#print axioms C10_quat_laws_real
 #check @C10_resolve_own
 #check @C10_resolve_inherit_nearest
 #check @C10_resolve_nowhere
@@ -88,3 +106,20 @@ open Gwb
 #check @C10_fraction_in_unit_interval_full
 #check @C10_geometry_convex_full
 #check @C10_temperature_convex_basic
+#check @C10_quat_branch_cases
+#check @C10_quat_roundtrip_w
+#check @C10_quat_roundtrip_x
+#check @C10_quat_roundtrip_y
+#check @C10_quat_roundtrip_z
+#check @C10_quat_roundtrip
+#check @C10_quat_unit
+#check @C10_slerp_endpoints
+#check @C10_slerp_neg_same_rotation
+#check @C10_slerp_blend_endpoints
+#check @C15_blend_is_rotation
+#check @C15_blend_is_rotation_quat
+#check @C15_blend_linear_norm
+#check @C15_blend_defect_exact
+#check @C15_blend_orthonormal_iff
+#check @C15_blend_linear_defect
+#check @C10_quat_laws_real
